@@ -21,13 +21,13 @@
                           n = 2^ceil(d/2) rounds (Shirokov's theorem, a Cayley-Hamilton statement),
                           hence the suffix _partial.
 
-   The closed forms for d <= 3 (the two scalar equations for all operands) are in Theory/Hitzer.v.
+   The closed forms for d <= 4 (the two scalar equations for all operands) are in Theory/Hitzer.v.
    Custom bases: all statements here are for an arbitrary algebra under [sign_hyps], so they hold
-   for custom bases as they stand; the d <= 3 closed-form identities of Theory/Hitzer.v are proved for
+   for custom bases as they stand; the d <= 4 closed-form identities of Theory/Hitzer.v are proved for
    ascending spellings and transfer to other spellings by the C14 relabelling isomorphism
    (Theory/Relabel.v), which is not composed here. *)
 From Coq Require Import List ZArith Bool Ring Lia Permutation RelationClasses.
-From KV Require Import Model.All Model.Inverse Theory.WF Theory.Sparse Theory.Product Theory.Ops
+From KV Require Import Model.All Model.Inverse Theory.WF Theory.Bits Theory.Sparse Theory.Product Theory.Ops
   Theory.OpsWF Theory.Algebra Theory.Natural.
 Import ListNotations.
 
@@ -374,3 +374,423 @@ Section Filters.
       + cbn [coeff]. destruct (Z.eqb k K); [reflexivity | exact IH].
   Qed.
 End Filters.
+
+(* ================= power_supply and the Shirokov scheme ================= *)
+Lemma zassoc_zset {V} k s (v : V) pw : zassoc k (zset s v pw) = if Z.eqb s k then Some v else zassoc k pw.
+Proof.
+  induction pw as [|[k' v'] pw IH]; cbn [zset zassoc].
+  - reflexivity.
+  - destruct (Z.eqb k' s) eqn:E1; cbn [zassoc].
+    + apply Z.eqb_eq in E1. subst k'. destruct (Z.eqb s k); reflexivity.
+    + destruct (Z.eqb k' k) eqn:E2.
+      * apply Z.eqb_eq in E2. subst k'. rewrite Z.eqb_sym, E1. reflexivity.
+      * exact IH.
+Qed.
+
+Section Powers.
+  Variable R : Type.
+  Variables (rO rI : R) (radd rmul rsub : R -> R -> R) (ropp : R -> R).
+  Hypothesis Rth : ring_theory rO rI radd rmul rsub ropp (@eq R).
+  Add Ring Rring3 : Rth.
+  Local Notation O := (mkOps R radd rsub rmul ropp rO rI).
+  Local Notation "a * b" := (rmul a b) : kvr_scope.
+  Local Notation equiv := (Sparse.equiv rO rI radd rmul rsub ropp).
+  Local Infix "==" := equiv (at level 70, no associativity).
+  Local Open Scope Z_scope.
+
+  Variable A : alg.
+  Local Notation L := (alg_len A).
+  Local Notation wf := (@wfmv R A).
+  Local Notation cf K x := (coeff O K x).
+  Local Notation scal := (Algebra.scal rmul).
+  Local Notation one := (Algebra.one rI).
+  Hypothesis SH : sign_hyps A.
+  Local Instance equiv_Equiv3 : Equivalence equiv := equiv_Equivalence R rO rI radd rmul rsub ropp.
+
+  Variable dv : R -> R -> R.
+  Variable isz : R -> bool.
+  Variable F : mv R -> mv R.
+  Hypothesis HF : filter_ok rO rI radd rmul rsub ropp A F.
+
+  Local Notation GP := (gp O A).
+  Local Notation SUB := (sub O A).
+  Local Notation imul := (i_mul O F A).
+  Local Notation isub := (i_sub O F A).
+  Local Notation wfgp := (wfmv_gp R rO rI radd rmul rsub ropp A SH).
+  Local Notation wfsub := (wfmv_sub R rO rI radd rmul rsub ropp A SH).
+  Local Notation gpc := (gp_congr R rO rI radd rmul rsub ropp Rth A).
+  Local Notation subc := (sub_congr R rO rI radd rmul rsub ropp Rth A).
+  Local Notation gpa := (gp_assoc R rO rI radd rmul rsub ropp Rth A SH).
+
+  Lemma wf_imul' a b : wf (imul a b). Proof. apply (HF _ (wfgp a b)). Qed.
+  Lemma eq_imul' a b : imul a b == GP a b. Proof. apply (HF _ (wfgp a b)). Qed.
+  Lemma wf_isub' a b : wf (isub a b). Proof. apply (HF _ (wfsub a b)). Qed.
+  Lemma eq_isub' a b : isub a b == SUB a b. Proof. apply (HF _ (wfsub a b)). Qed.
+
+  Variable x : mv R.
+  Hypothesis Hx : wf x.
+
+  (* x^(n+1), left-nested *)
+  Fixpoint xpow (n : nat) : mv R :=
+    match n with 0%nat => x | S k => GP (xpow k) x end.
+  (* x^e for e >= 1 *)
+  Definition xe (e : nat) : mv R := xpow (e - 1).
+  Definition xp (k : Z) : mv R := xe (Z.to_nat k).
+
+  Lemma wf_xpow n : wf (xpow n).
+  Proof. destruct n; [exact Hx | apply wfgp]. Qed.
+  Lemma wf_xe e : wf (xe e). Proof. apply wf_xpow. Qed.
+
+  Lemma xpow_add a b : GP (xpow a) (xpow b) == xpow (a + b + 1).
+  Proof.
+    induction b as [|b IH].
+    - replace (a + 0 + 1)%nat with (S a) by lia. reflexivity.
+    - replace (a + S b + 1)%nat with (S (a + b + 1)) by lia. cbn [xpow].
+      transitivity (GP (GP (xpow a) (xpow b)) x).
+      + symmetry. apply gpa; [apply wf_xpow | apply wf_xpow | exact Hx].
+      + apply gpc; [apply wfgp | apply wf_xpow | exact Hx | exact Hx | exact IH | reflexivity].
+  Qed.
+
+  Lemma xe_add a b : (1 <= a)%nat -> (1 <= b)%nat -> GP (xe a) (xe b) == xe (a + b).
+  Proof.
+    intros Ha Hb. unfold xe. rewrite xpow_add. replace (a - 1 + (b - 1) + 1)%nat with (a + b - 1)%nat by lia.
+    reflexivity.
+  Qed.
+  Lemma xe_1 : xe 1 = x. Proof. reflexivity. Qed.
+  Lemma x_xe e : (1 <= e)%nat -> GP x (xe e) == xe (S e).
+  Proof. intros He. transitivity (GP (xe 1) (xe e)); [reflexivity|]. rewrite (xe_add 1 e) by lia. reflexivity. Qed.
+  Lemma xe_x e : (1 <= e)%nat -> GP (xe e) x == xe (S e).
+  Proof.
+    intros He. transitivity (GP (xe e) (xe 1)); [reflexivity|]. rewrite (xe_add e 1) by lia.
+    replace (e + 1)%nat with (S e) by lia. reflexivity.
+  Qed.
+
+  (* ---------- power_supply ---------- *)
+  (* the dictionary of powers only ever holds powers of x under their exponent *)
+  Definition PW (pw : list (Z * mv R)) : Prop :=
+    forall k v, zassoc k pw = Some v -> 1 <= k /\ wf v /\ v == xp k.
+
+  Lemma PW_init : PW [(1, x)].
+  Proof.
+    intros k v. cbn [zassoc]. destruct (Z.eqb 1 k) eqn:E; [|discriminate].
+    apply Z.eqb_eq in E. subst k. intros H. inversion H. subst v.
+    split; [lia|]. split; [exact Hx | reflexivity].
+  Qed.
+
+  (* one `next(supply)`: for ANY table of chains, a returned value is x^step *)
+  Theorem supply_next_correct chains pw step pw' v : PW pw ->
+    supply_next O F A chains pw step = Ok (pw', v) ->
+    PW pw' /\ 1 <= step /\ wf v /\ v == xp step /\ zassoc step pw' = Some v.
+  Proof.
+    intros Hpw. unfold supply_next. destruct (zassoc step pw) as [v0|] eqn:E.
+    - intros H. inversion H. subst pw' v. destruct (Hpw step v0 E) as (H1 & H2 & H3). auto.
+    - intros H.
+      apply bind_Ok in H. destruct H as (chain & _ & H).
+      apply bind_Ok in H. destruct H as (c & _ & H).
+      apply bind_Ok in H. destruct H as (a & Ea & H).
+      apply bind_Ok in H. destruct H as (b & Eb & H).
+      inversion H. subst pw' v. clear H.
+      destruct (zassoc c pw) as [a'|] eqn:Eca; [|discriminate]. inversion Ea. subst a'.
+      destruct (zassoc (step - c) pw) as [b'|] eqn:Ecb; [|discriminate]. inversion Eb. subst b'.
+      destruct (Hpw c a Eca) as (Hc1 & Wa & Ha). destruct (Hpw _ b Ecb) as (Hc2 & Wb & Hb).
+      assert (Hv : imul a b == xp step).
+      { transitivity (GP a b); [apply eq_imul'|].
+        transitivity (GP (xp c) (xp (step - c))).
+        { apply gpc; try assumption; apply wf_xe. }
+        unfold xp. rewrite xe_add by lia. replace (Z.to_nat c + Z.to_nat (step - c))%nat with (Z.to_nat step) by lia.
+        reflexivity. }
+      split; [|split; [lia|split; [apply wf_imul'|split; [exact Hv|]]]].
+      + intros k w. rewrite zassoc_zset. destruct (Z.eqb step k) eqn:Ek.
+        * apply Z.eqb_eq in Ek. subst k. intros Hw. inversion Hw. subst w.
+          split; [lia|]. split; [apply wf_imul' | exact Hv].
+        * apply Hpw.
+      + rewrite zassoc_zset, Z.eqb_refl. reflexivity.
+  Qed.
+
+  Lemma power_supply_from_correct chains exps : forall pw vs, PW pw ->
+    power_supply_from O F A chains pw exps = Ok vs ->
+    Forall2 (fun e v => 1 <= e /\ wf v /\ v == xp e) exps vs.
+  Proof.
+    induction exps as [|e exps IH]; intros pw vs Hpw; cbn [power_supply_from].
+    - intros H. inversion H. constructor.
+    - intros H. apply bind_Ok in H. destruct H as ([pw' v] & E & H). cbv beta iota zeta in H.
+      apply bind_Ok in H. destruct H as (vs' & E' & H). inversion H. subst vs.
+      destruct (supply_next_correct chains pw e pw' v Hpw E) as (Hpw' & H1 & H2 & H3 & _).
+      constructor; [auto | exact (IH pw' vs' Hpw' E')].
+  Qed.
+
+  (* power_supply(x, exponents) yields x^e for every requested exponent e, whenever it yields *)
+  Theorem power_supply_correct exps vs : power_supply O F A x exps = Ok vs ->
+    Forall2 (fun e v => 1 <= e /\ wf v /\ v == xp e) exps vs.
+  Proof.
+    unfold power_supply. intros H. apply bind_Ok in H. destruct H as (chains & _ & H).
+    exact (power_supply_from_correct chains exps _ vs PW_init H).
+  Qed.
+  (* ---------- the Shirokov loop ---------- *)
+  Local Notation sc := (@scalar_mv R).
+  Local Notation gsr := (gp_sub_r R rO rI radd rmul rsub ropp Rth A SH).
+  Local Notation gsl := (gp_sub_l R rO rI radd rmul rsub ropp Rth A SH).
+  Lemma wf_sc c : wf (sc c). Proof. apply wfmv_scalar. Qed.
+
+  (* scalars commute with everything *)
+  Lemma sc_comm c y : wf y -> GP (sc c) y == GP y (sc c).
+  Proof.
+    intros Hy. transitivity (Algebra.scal rmul c y).
+    - apply (gp_scalar_l R rO rI radd rmul rsub ropp Rth A SH). exact Hy.
+    - symmetry. apply (gp_scalar_r R rO rI radd rmul rsub ropp Rth A SH). exact Hy.
+  Qed.
+
+  (* acc - x^(k-1) c_1 - x^(k-2) c_2 - ... : the shape of xi, as a recursion over the list cs *)
+  Fixpoint Exg (acc : mv R) (k : nat) (cs : list R) : mv R :=
+    match cs with
+    | [] => acc
+    | c :: r => Exg (SUB acc (GP (xe (k - 1)) (sc c))) (k - 1) r
+    end.
+
+  Lemma wf_Exg cs : forall acc k, wf acc -> wf (Exg acc k cs).
+  Proof. induction cs as [|c r IH]; intros acc k H; cbn [Exg]; [exact H | apply IH, wfsub]. Qed.
+
+  Lemma Exg_congr cs : forall acc acc' k, wf acc -> wf acc' -> acc == acc' -> Exg acc k cs == Exg acc' k cs.
+  Proof.
+    induction cs as [|c r IH]; intros acc acc' k H H' E; cbn [Exg]; [exact E|].
+    apply IH; try apply wfsub. apply subc; try assumption; try apply wfgp. reflexivity.
+  Qed.
+
+  Lemma Exg_snoc cs c : forall acc k,
+    Exg acc k (cs ++ [c]) = SUB (Exg acc k cs) (GP (xe (k - length cs - 1)) (sc c)).
+  Proof.
+    induction cs as [|c0 r IH]; intros acc k; cbn [Exg app length].
+    - rewrite Nat.sub_0_r. reflexivity.
+    - rewrite IH. replace (k - 1 - length r - 1)%nat with (k - S (length r) - 1)%nat by lia. reflexivity.
+  Qed.
+
+  Lemma x_Exg cs : forall acc k, wf acc -> (length cs < k)%nat ->
+    GP x (Exg acc k cs) == Exg (GP x acc) (S k) cs.
+  Proof.
+    induction cs as [|c r IH]; intros acc k Ha Hl; cbn [Exg length] in *; [reflexivity|].
+    rewrite (IH _ (k - 1)%nat) by (try apply wfsub; lia).
+    replace (S (k - 1)) with k by lia. replace (S k - 1)%nat with k by lia.
+    apply Exg_congr; try apply wfgp; try apply wfsub.
+    transitivity (SUB (GP x acc) (GP x (GP (xe (k - 1)) (sc c)))).
+    { apply gsr; [exact Hx | exact Ha | apply wfgp]. }
+    apply subc; try apply wfgp; [reflexivity|].
+    transitivity (GP (GP x (xe (k - 1))) (sc c)).
+    { symmetry. apply gpa; [exact Hx | apply wf_xe | apply wf_sc]. }
+    apply gpc; try apply wfgp; try apply wf_sc; try apply wf_xe; [|reflexivity].
+    rewrite (x_xe (k - 1)) by lia. replace (S (k - 1)) with k by lia. reflexivity.
+  Qed.
+
+  Lemma Exg_x cs : forall acc k, wf acc -> (length cs < k)%nat ->
+    GP (Exg acc k cs) x == Exg (GP acc x) (S k) cs.
+  Proof.
+    induction cs as [|c r IH]; intros acc k Ha Hl; cbn [Exg length] in *; [reflexivity|].
+    rewrite (IH _ (k - 1)%nat) by (try apply wfsub; lia).
+    replace (S (k - 1)) with k by lia. replace (S k - 1)%nat with k by lia.
+    apply Exg_congr; try apply wfgp; try apply wfsub.
+    transitivity (SUB (GP acc x) (GP (GP (xe (k - 1)) (sc c)) x)).
+    { apply gsl; [exact Ha | apply wfgp | exact Hx]. }
+    apply subc; try apply wfgp; [reflexivity|].
+    transitivity (GP (xe (k - 1)) (GP (sc c) x)).
+    { apply gpa; [apply wf_xe | apply wf_sc | exact Hx]. }
+    transitivity (GP (xe (k - 1)) (GP x (sc c))).
+    { apply gpc; try apply wfgp; try apply wf_xe; [reflexivity | apply sc_comm; exact Hx]. }
+    transitivity (GP (GP (xe (k - 1)) x) (sc c)).
+    { symmetry. apply gpa; [apply wf_xe | exact Hx | apply wf_sc]. }
+    apply gpc; try apply wfgp; try apply wf_sc; try apply wf_xe; [|reflexivity].
+    rewrite (xe_x (k - 1)) by lia. replace (S (k - 1)) with k by lia. reflexivity.
+  Qed.
+
+  (* the list `powers` holds x^1, x^2, ... *)
+  Definition Pok (P : list (mv R)) : Prop :=
+    forall t, (t < length P)%nat -> wf (nth t P []) /\ nth t P [] == xe (S t).
+
+  Definition xi_step (i : nat) (P : list (mv R)) (cs : list R) (xi : mv R) (j : nat) : mv R :=
+    isub xi (imul (nth (i - j - 2)%nat P []) (sc (nth j cs rO))).
+
+  Lemma xi_fold i P cs : length P = i -> Pok P ->
+    forall suf s pre acc acc', cs = pre ++ suf -> length pre = s -> (s + length suf = i - 1)%nat ->
+    wf acc -> wf acc' -> acc == acc' ->
+    wf (fold_left (xi_step i P cs) (seq s (length suf)) acc)
+    /\ fold_left (xi_step i P cs) (seq s (length suf)) acc == Exg acc' (i - s) suf.
+  Proof.
+    intros HP HPok. induction suf as [|c suf IH]; intros s pre acc acc' Hcs Hpre Hlen Wa Wa' E;
+      cbn [length seq fold_left Exg].
+    - split; assumption.
+    - cbn [length] in Hlen.
+      assert (Hnth : nth s cs rO = c).
+      { rewrite Hcs, app_nth2 by lia. rewrite Hpre, Nat.sub_diag. reflexivity. }
+      destruct (HPok (i - s - 2)%nat ltac:(lia)) as [Wp Ep].
+      replace (S (i - s - 2)) with (i - s - 1)%nat in Ep by lia.
+      assert (E1 : xi_step i P cs acc s == SUB acc' (GP (xe (i - s - 1)) (sc c))).
+      { unfold xi_step. rewrite Hnth. transitivity (SUB acc (imul (nth (i - s - 2) P []) (sc c))); [apply eq_isub'|].
+        apply subc; try assumption; try apply wf_imul'; try apply wfgp.
+        transitivity (GP (nth (i - s - 2) P []) (sc c)); [apply eq_imul'|].
+        apply gpc; try assumption; try apply wf_sc; try apply wf_xe. reflexivity. }
+      assert (W1 : wf (xi_step i P cs acc s)) by apply wf_isub'.
+      destruct (IH (S s) (pre ++ [c]) (xi_step i P cs acc s) (SUB acc' (GP (xe (i - s - 1)) (sc c)))) as [W2 E2];
+        try assumption; try apply wfsub.
+      + rewrite <- app_assoc. exact Hcs.
+      + rewrite app_length. cbn [length]. lia.
+      + lia.
+      + split; [exact W2|]. replace (i - S s)%nat with (i - s - 1)%nat in E2 by lia. exact E2.
+  Qed.
+
+  Lemma shirokov_xi_spec i P cs p : length P = i -> Pok P -> length cs = (i - 1)%nat ->
+    wf p -> p == xe i ->
+    wf (shirokov_xi O F A i P cs p) /\ shirokov_xi O F A i P cs p == Exg (xe i) i cs.
+  Proof.
+    intros HP HPok Hc Wp Ep.
+    destruct (xi_fold i P cs HP HPok cs 0%nat [] p (xe i) eq_refl eq_refl ltac:(cbn; lia) Wp (wf_xe i) Ep) as [W E].
+    rewrite Nat.sub_0_r in E. unfold shirokov_xi. rewrite <- Hc. split; [exact W | exact E].
+  Qed.
+
+  (* a multivector whose stored keys all have grade 0 is its scalar part *)
+  Lemma grades_is_0_scalar z : wf z -> grades_is_0 z = true -> z == Algebra.scal rmul (cf 0 z) (Algebra.one rI).
+  Proof.
+    intros Wz H. assert (Hk : forall k, In k (keys z) -> k = 0).
+    { unfold grades_is_0 in H. destruct (keys z) as [|k0 ks] eqn:E; [discriminate|].
+      rewrite forallb_forall in H. intros k Hk. apply popcount_eq_0. apply Z.eqb_eq. apply H. exact Hk. }
+    intros K. rewrite (cf_scal R rO rI radd rmul rsub ropp Rth), (cf_one R rO rI radd rmul rsub ropp).
+    destruct (Z.eqb K 0) eqn:EK.
+    - apply Z.eqb_eq in EK. subst K. ring.
+    - rewrite (coeff_notin R rO rI radd rmul rsub ropp); [ring|].
+      intros HK. apply Hk in HK. subst K. discriminate.
+  Qed.
+
+  (* loop invariant at the start of round i *)
+  Record Inv (i : nat) (pw : list (Z * mv R)) (powers : list (mv R)) (cs : list R) (xs : list (mv R))
+         (cur : nat * mv R) : Prop := mkInv {
+    inv_pw : PW pw;
+    inv_plen : length powers = (i - 1)%nat;
+    inv_pok : Pok powers;
+    inv_clen : length cs = (i - 1)%nat;
+    inv_cur : grades_is_0 (snd cur) = false;
+    inv_last : (2 <= i)%nat -> exists cs0 c, cs = cs0 ++ [c] /\ wf (last xs []) /\
+                                             last xs [] == Exg (xe (i - 1)) (i - 1) cs0 }.
+
+  Definition shirokov_post (i : nat) (xi : mv R) (xs : list (mv R)) (cs : list R) : Prop :=
+    wf xi /\
+    ((i = 1%nat /\ xi == x) \/
+     ((2 <= i)%nat /\ GP x (SUB (last xs []) (sc (last cs rO))) == xi
+                  /\ GP (SUB (last xs []) (sc (last cs rO))) x == xi)).
+
+  Lemma shirokov_loop_inv chains n m : forall i pw powers cs xs cur i' xi xs' cs',
+    (1 <= i)%nat -> Inv i pw powers cs xs cur ->
+    shirokov_loop O dv isz F A chains n (seq i m) pw powers cs xs cur = Ok (i', xi, xs', cs') ->
+    grades_is_0 xi = true -> shirokov_post i' xi xs' cs'.
+  Proof.
+    induction m as [|m IH]; intros i pw powers cs xs cur i' xi xs' cs' Hi HI; cbn [seq shirokov_loop].
+    - intros H Hg. inversion H. subst. rewrite (inv_cur _ _ _ _ _ _ HI) in Hg. discriminate.
+    - intros H Hg. apply bind_Ok in H. destruct H as ([pw' p] & Es & H). cbv beta iota zeta in H.
+      destruct (supply_next_correct chains pw (Z.of_nat i) pw' p (inv_pw _ _ _ _ _ _ HI) Es)
+        as (Hpw' & _ & Wp & Ep & _).
+      unfold xp in Ep. rewrite Nat2Z.id in Ep.
+      set (powers' := powers ++ [p]) in *.
+      assert (HPl : length powers' = i).
+      { unfold powers'. rewrite app_length, (inv_plen _ _ _ _ _ _ HI). cbn [length]. lia. }
+      assert (HPok : Pok powers').
+      { intros t Ht. unfold powers'. destruct (Nat.lt_ge_cases t (length powers)) as [Hlt|Hge].
+        - rewrite app_nth1 by exact Hlt. apply (inv_pok _ _ _ _ _ _ HI). exact Hlt.
+        - rewrite app_nth2 by exact Hge. rewrite HPl in Ht.
+          pose proof (inv_plen _ _ _ _ _ _ HI) as Hpl.
+          replace (t - length powers)%nat with 0%nat by lia. cbn [nth].
+          replace (S t) with i by lia. split; assumption. }
+      assert (Hnth : nth (i - 1) powers' [] = p).
+      { unfold powers'. rewrite app_nth2 by (rewrite (inv_plen _ _ _ _ _ _ HI); lia).
+        rewrite (inv_plen _ _ _ _ _ _ HI), Nat.sub_diag. reflexivity. }
+      rewrite Hnth in H.
+      destruct (shirokov_xi_spec i powers' cs p HPl HPok (inv_clen _ _ _ _ _ _ HI) Wp Ep) as [Wxi Exi].
+      set (xi0 := shirokov_xi O F A i powers' cs p) in *.
+      destruct (grades_is_0 xi0) eqn:Eg.
+      + (* break *)
+        inversion H. subst i' xi xs' cs'. split; [exact Wxi|].
+        destruct (Nat.eq_dec i 1) as [E1|N1].
+        * left. split; [exact E1|].
+          pose proof (inv_clen _ _ _ _ _ _ HI) as Hc. rewrite E1 in Hc, Exi.
+          destruct cs as [|c0 cs]; [|cbn in Hc; lia].
+          cbn [Exg] in Exi. exact Exi.
+        * right. assert (H2 : (2 <= i)%nat) by lia. split; [exact H2|].
+          destruct (inv_last _ _ _ _ _ _ HI H2) as (cs0 & c & Ecs & Wl & El).
+          pose proof (inv_clen _ _ _ _ _ _ HI) as Hc. rewrite Ecs, app_length in Hc. cbn [length] in Hc.
+          rewrite Ecs, last_last. rewrite Ecs, Exg_snoc in Exi.
+          replace (i - length cs0 - 1)%nat with 1%nat in Exi by lia. rewrite xe_1 in Exi.
+          set (Xl := Exg (xe (i - 1)) (i - 1) cs0) in *.
+          assert (WXl : wf Xl) by (apply wf_Exg, wf_xe).
+          split.
+          -- transitivity (SUB (Exg (xe i) i cs0) (GP x (sc c))); [|symmetry; exact Exi].
+             transitivity (SUB (GP x (last xs [])) (GP x (sc c))).
+             { apply gsr; [exact Hx | exact Wl | apply wf_sc]. }
+             apply subc; try apply wfgp; try apply wf_Exg; try apply wf_xe; [|reflexivity].
+             transitivity (GP x Xl).
+             { apply gpc; try assumption. reflexivity. }
+             unfold Xl. rewrite x_Exg by (try apply wf_xe; lia).
+             replace (S (i - 1)) with i by lia.
+             apply Exg_congr; try apply wfgp; try apply wf_xe.
+             rewrite (x_xe (i - 1)) by lia. replace (S (i - 1)) with i by lia. reflexivity.
+          -- transitivity (SUB (Exg (xe i) i cs0) (GP x (sc c))); [|symmetry; exact Exi].
+             transitivity (SUB (GP (last xs []) x) (GP (sc c) x)).
+             { apply gsl; [exact Wl | apply wf_sc | exact Hx]. }
+             apply subc; try apply wfgp; try apply wf_Exg; try apply wf_xe; [|apply sc_comm; exact Hx].
+             transitivity (GP Xl x).
+             { apply gpc; try assumption. reflexivity. }
+             unfold Xl. rewrite Exg_x by (try apply wf_xe; lia).
+             replace (S (i - 1)) with i by lia.
+             apply Exg_congr; try apply wfgp; try apply wf_xe.
+             rewrite (xe_x (i - 1)) by lia. replace (S (i - 1)) with i by lia. reflexivity.
+      + (* next round *)
+        apply (IH (S i) _ _ _ _ _ _ _ _ _ ltac:(lia)) in H; [exact H | | exact Hg].
+        constructor.
+        * exact Hpw'.
+        * rewrite HPl. lia.
+        * exact HPok.
+        * rewrite app_length, (inv_clen _ _ _ _ _ _ HI). cbn [length]. lia.
+        * exact Eg.
+        * intros _. eexists cs, _. split; [reflexivity|]. rewrite last_last.
+          replace (S i - 1)%nat with i by lia. split; [exact Wxi | exact Exi].
+  Qed.
+
+  (* C07, the iterative scheme, every dimension: whenever the loop of codegen_shirokov_inv ends on a
+     purely scalar xi (its `break`), the returned pair satisfies  x adj = adj x = xi.e *)
+  Theorem shirokov_sound_partial i xi xs cs :
+    shirokov_run O dv isz F A x = Ok (i, xi, xs, cs) -> grades_is_0 xi = true ->
+    let adj := shirokov_adj O F A i xs cs in
+    let den := e_of O xi in
+    shirokov O dv isz F A x = Ok (adj, den) /\
+    GP x adj == Algebra.scal rmul den (Algebra.one rI) /\ GP adj x == Algebra.scal rmul den (Algebra.one rI).
+  Proof.
+    intros Hrun Hg adj den. split.
+    { unfold shirokov. rewrite Hrun. reflexivity. }
+    unfold shirokov_run in Hrun. apply bind_Ok in Hrun. destruct Hrun as (chains & _ & Hl).
+    assert (HI : Inv 1 [(1, x)] [] [] [] (0%nat, [])).
+    { constructor; try reflexivity; [exact PW_init | intros t Ht; cbn in Ht; lia | intros H; lia]. }
+    destruct (shirokov_loop_inv chains _ _ 1%nat _ _ _ _ _ _ _ _ _ (le_n 1) HI Hl Hg) as [Wxi Hpost].
+    pose proof (grades_is_0_scalar xi Wxi Hg) as Hsc. fold (e_of O xi) in Hsc. fold den in Hsc.
+    unfold adj, shirokov_adj. destruct Hpost as [[E1 Exi]|(H2 & G1 & G2)].
+    - subst i. cbn [Nat.eqb]. split.
+      + transitivity x; [apply (gp_one_r R rO rI radd rmul rsub ropp Rth A SH); exact Hx|].
+        transitivity xi; [symmetry; exact Exi | exact Hsc].
+      + transitivity x; [apply (gp_one_l R rO rI radd rmul rsub ropp Rth A SH); exact Hx|].
+        transitivity xi; [symmetry; exact Exi | exact Hsc].
+    - destruct (Nat.eqb i 1) eqn:E; [apply Nat.eqb_eq in E; lia|].
+      pose proof (eq_isub' (last xs []) (sc (last cs rO))) as Ea.
+      split.
+      + transitivity xi; [|exact Hsc]. transitivity (GP x (SUB (last xs []) (sc (last cs rO)))); [|exact G1].
+        apply gpc; try assumption; try apply wf_isub'; try apply wfsub. reflexivity.
+      + transitivity xi; [|exact Hsc]. transitivity (GP (SUB (last xs []) (sc (last cs rO))) x); [|exact G2].
+        apply gpc; try assumption; try apply wf_isub'; try apply wfsub. reflexivity.
+  Qed.
+  (* alg.inv for d >= 6 under the same proviso *)
+  Theorem inv_shirokov_sound_partial i xi xs cs r : Nat.ltb (a_d A) 6 = false ->
+    shirokov_run O dv isz F A x = Ok (i, xi, xs, cs) -> grades_is_0 xi = true ->
+    (forall b, isz b = false -> (b * dv rI b)%r = rI) ->
+    inv_model O dv isz F A x = Ok r -> GP x r == Algebra.one rI /\ GP r x == Algebra.one rI.
+  Proof.
+    intros Hd Hrun Hg Hdv Hr.
+    destruct (shirokov_sound_partial i xi xs cs Hrun Hg) as (E & H1 & H2).
+    assert (E' : inv_numden O dv isz F A x = Ok (shirokov_adj O F A i xs cs, e_of O xi)).
+    { unfold inv_numden. rewrite Hd. exact E. }
+    pose proof Hr as Hr'. apply (inv_model_ok R rO rI radd rmul rsub ropp) in Hr'.
+    destruct Hr' as (num' & den' & E2 & Hz & _). rewrite E' in E2. inversion E2; subst num' den'.
+    exact (inv_model_sound R rO rI radd rmul rsub ropp Rth A SH dv isz F HF x _ _ r Hx E' H1 H2 (Hdv _ Hz) Hr).
+  Qed.
+End Powers.
